@@ -26,18 +26,22 @@ type c03Pair struct {
 	TopL  map[string]any // top-level part only in the long document
 	Files bool           // needs modelFiles on disk
 	Opts  loadOpts
-	Extra map[string]any // extra service attributes for both documents
-	Key   string         // distinctness key (short text)
+	Env   map[string]string // project environment beyond HOME
+	Via   string            // "" | include: both documents are loaded as an included file whose .env holds Env
+	Extra map[string]any    // extra service attributes for both documents
+	Key   string            // distinctness key (short text)
 }
 
 type c03Case struct {
-	Attr     string   `json:"attr"`
-	ShortDoc string   `json:"short_doc"`
-	LongDoc  string   `json:"long_doc"`
-	Files    bool     `json:"files,omitempty"`
-	Opts     loadOpts `json:"opts"`
-	NearMiss bool     `json:"near_miss,omitempty"`
-	Key      string   `json:"key"`
+	Attr     string            `json:"attr"`
+	ShortDoc string            `json:"short_doc"`
+	LongDoc  string            `json:"long_doc"`
+	Files    bool              `json:"files,omitempty"`
+	Opts     loadOpts          `json:"opts"`
+	NearMiss bool              `json:"near_miss,omitempty"`
+	Key      string            `json:"key"`
+	Env      map[string]string `json:"env,omitempty"`
+	Via      string            `json:"via,omitempty"`
 }
 
 func (p c03Pair) toCase() c03Case {
@@ -62,7 +66,7 @@ func (p c03Pair) toCase() c03Case {
 		}
 		return emitYAML(doc, nil)
 	}
-	return c03Case{Attr: p.Attr, ShortDoc: mk(p.Short, p.TopS), LongDoc: mk(p.Long, p.TopL), Files: p.Files, Opts: p.Opts, Key: p.Attr + "|" + p.Key}
+	return c03Case{Attr: p.Attr, ShortDoc: mk(p.Short, p.TopS), LongDoc: mk(p.Long, p.TopL), Files: p.Files, Opts: p.Opts, Key: p.Attr + "|" + p.Key + "|" + p.Via + jsonKey(p.Env) + jsonKey(p.Opts), Env: p.Env, Via: p.Via}
 }
 
 // ---- printers written from the grammars ----
@@ -535,6 +539,23 @@ func genC03(t *rapid.T) c03Case {
 			}
 		}
 		short, long := kvList(es, "="), kvMap(es)
+		if allowNull {
+			// entries without a value are filled in from the project environment: define some of them there,
+			// with and without the option that leaves service environments unresolved, in the main file or in
+			// an included one (whose own .env then holds the variables)
+			for _, e := range es {
+				if e.Null && !strings.ContainsAny(e.K, ".-") && rapid.IntRange(0, 2).Draw(t, "defined") > 0 {
+					if p.Env == nil {
+						p.Env = map[string]string{}
+					}
+					p.Env[e.K] = rapid.SampledFrom([]string{"from-env", "", "x y"}).Draw(t, "envval")
+				}
+			}
+			p.Opts.SkipResolveEnvironment = rapid.IntRange(0, 3).Draw(t, "skipresolve") == 0
+			if rapid.IntRange(0, 2).Draw(t, "viainclude") == 0 {
+				p.Via = "include"
+			}
+		}
 		p.Attr = "kv:" + attr
 		p.Key = attr + fmt.Sprint(short)
 		p.Short, p.Long = short, long
@@ -681,9 +702,30 @@ func c03Files() []memFile {
 
 func c03Check(c *Ctx, cs c03Case) *Failure {
 	c.Label("attr:" + cs.Attr)
+	if cs.Via != "" {
+		c.Label("via:" + cs.Via)
+	}
+	if len(cs.Env) > 0 {
+		c.Label("valueless-entry-defined-in-environment")
+	}
+	if cs.Opts.SkipResolveEnvironment {
+		c.Label("opts:skip-resolve-environment")
+	}
 	load := func(doc string) loadResult {
 		lc := loadCase{Files: []memFile{{Name: "compose.yaml", Content: doc}}, Main: []string{"compose.yaml"}, Opts: cs.Opts, Env: map[string]string{"HOME": "/home/user"}}
-		if cs.Files {
+		if cs.Via == "include" {
+			var env strings.Builder
+			for _, k := range sortedStrKeys(cs.Env) {
+				env.WriteString(k + "=" + dotenvQuote(cs.Env[k]) + "\n")
+			}
+			lc.Files = []memFile{{Name: "compose.yaml", Content: "include:\n  - viainc/compose.yaml\nservices:\n  front-of-include:\n    image: busybox\n"},
+				{Name: "viainc/compose.yaml", Content: doc}, {Name: "viainc/.env", Content: env.String()}}
+		} else {
+			for k, v := range cs.Env {
+				lc.Env[k] = v
+			}
+		}
+		if cs.Files || cs.Via == "include" {
 			lc.Files = append(lc.Files, c03Files()...)
 			root, cleanup, err := lc.materialise()
 			if err != nil {
